@@ -25,6 +25,17 @@ CHECKS = {
    note="Data contents are fill patterns; the conversion does not branch on data values beyond the first byte of 1-byte frames (covered by C04)."),
 }
 
+CHECKS.update({
+ "C12": dict(engine="E2 bfs", sec="4/C12", technique=E2 + "; plus directed exhaustive sweeps of configuration fields and 70000-step counter chains",
+   text="Breadth-first search over the real VirtualSign (state key = the real struct) to a fixed point under stated size bounds, offering every message of alphabets R1 (every chunk length 0..=255 at offset 0 and 16, all control messages for own and foreign address, counts below/equal/above, valid/invalid/zero/overflowing configuration blocks), R2 (coloured chunks, two page sizes) and R3 (each of the 11 real sign types) in every reachable state, for both flip styles, plus a two-sign bus; plus every configuration block of a 230k-block field sweep and three 70000-repetition counter chains. Oracle: no transition unwinds and a count message ends a transfer in received/failed. All reachable states under the bounds are covered, which is what 'never panics whatever is sent' needs.",
+   note="Bounds on buffered bytes / counted chunks / stored pages per run are in the evidence; data values are uniform fills and three colours; shadow automaton used only for bounds."),
+ "C13": dict(engine="E2 bfs", sec="4/C13", technique=E2 + ", in lock-step with a reference automaton of the documented sign-side machine",
+   text="The same state graphs as C12 (R1, R2, all 11 R3 types, both flip styles) are explored to a fixed point over pairs (real sign, reference automaton); on every transition reply, state(), sign_type() and pages() must equal the automaton's and every stored page must have the configured size. Explicit don't-cares keep the check from demanding more than the statement.",
+   note="Trusts refsign.rs (~200 lines, written from the documentation); three documented don't-cares; counters >= 65536 out of bounds."),
+ "C14": dict(engine="E2 bfs", sec="4/C14", technique=E2 + " of the real VirtualSignBus, compared step by step with the same real signs run in isolation",
+   text="Breadth-first search over the real VirtualSignBus with 1..4 signs (mixed flip styles, both insertion orders, an absent address) to a fixed point under per-sign bounds. Each sign also exists as an isolated real VirtualSign that is fed only the messages that concern it (addressed to it; unaddressed data/count only while it is receiving). After every transition the bus reply must equal the addressed isolated sign's reply and each sign's state/type/pages must equal its isolated twin, so interference, wrong-sign replies, replies for absent addresses and effects of unaddressed messages on non-receiving signs are all decided, including their delayed consequences.",
+   note="n>=3 use a reduced alphabet and bounds; refsign.rs only for size bounds; a bus panic is C12's business."),
+})
 IMPLEMENTED = set(CHECKS)
 ALL = ["C%02d" % i for i in range(1, 21)]
 
